@@ -24,7 +24,7 @@ LEVEL_TEXT = ('Theorems in coq/theories/Properties/C14.v: all 64 wavelength-unit
               'and the values of unitless spectra for all lists, wave/flux chains compose and round-trip, Spectrum.sample in another wave unit returns the own-unit samples / factor for densities (unchanged for unitless) and preserves the integral on the converted grid, planck_* and '
               'vegaflux in any unit pair are the SI function carried by the proved-consistent conversions, a Blackbody '
               'converted with Spectrum.to is the Blackbody built in the target units, exitance = pi * radiance. '
-              'Wien peak and Stefan-Boltzmann total are numeric TESTS (not proofs), reported under coverage.extra.')
+              'Wien peak and Stefan-Boltzmann total are numeric TESTS (not proofs): cases `wien` / `stefan_boltzmann` compare the implementation with the laws evaluated with CODATA 2018 constants to 1e-5 (a failure is a violation, the property names both laws); coverage.extra repeats them with the module constants.')
 LEVEL_NOTE = ('Trusted: Coq kernel + stdlib Reals axioms, extraction, harness/gen_units.py (observation + ast translator, '
               'cross-checked against the implementation by exact evaluation of the emitted terms), np.exp/np.pi (oracle '
               'inputs), IEEE rounding (tolerance 1e-12 relative). Not proved: Wien, Stefan-Boltzmann (tests).')
@@ -41,7 +41,7 @@ ASSUMPTIONS = ['wavelengths > 0 and strictly increasing, values >= 0, temperatur
                'comparison tolerance 1e-12 relative; Planck arguments hc/(lambda k T) in [0.05, 50]']
 RULE = ('all 49+ name pairs and all 64 triples of wavelength units; all 27 flux triples at random (flux, wave); Spectrum.to '
         'chains of length <= 6 over random unit sequences (density and unitless, random upper/lower case, closed chains '
-        'favoured) observed after every step; Spectrum.sample(points, waveunit) for all 16 wave-unit pairs x {None, photlam, flam, wlam} (own grid and interior/outside points; spectrum untouched); planck_radiance/exitance, Blackbody (+ to-chain, + sample in its own and in other wave units), Blackbody.vegamag stars in every (wave, value) unit pair, converted with to-chains and sampled in every wave unit (compared with the SI reference vegaflux*planck_exitance ratio, a star built directly in the target units and a fresh star), integer/list/tuple inputs and scalar/list sample points, vegaflux in '
+        'favoured) observed after every step; Spectrum.sample(points, waveunit) for all 16 wave-unit pairs x {None, photlam, flam, wlam} (own grid and interior/outside points; spectrum untouched); TEST cases Wien peak (cubic fit of log radiance around the maximum) and Stefan-Boltzmann total (40001-point log grid) in every wave unit against CODATA 2018 references to 1e-5; planck_radiance/exitance, Blackbody (+ to-chain, + sample in its own and in other wave units), Blackbody.vegamag stars in every (wave, value) unit pair, converted with to-chains and sampled in every wave unit (compared with the SI reference vegaflux*planck_exitance ratio, a star built directly in the target units and a fresh star), integer/list/tuple inputs and scalar/list sample points, vegaflux in '
         'all unit pairs; refused operations (unknown unit, None value unit -> flux); '
         'histories of 2-4 planck_*/Unit.to/flux/vegaflux calls in one process with one argument varied at a time; non-trivial = at least one conversion between two different units')
 
@@ -53,6 +53,12 @@ FNAMES = ['photlam', 'flam', 'wlam']
 CANON = {'m': 'm', 'meter': 'm', 'um': 'um', 'micron': 'um', 'nm': 'nm', 'nanometer': 'nm', 'angstrom': 'angstrom'}
 # physical definitions (the oracle's ground truth, independent of the code and of the model)
 METRES = {'m': Fraction(1), 'um': Fraction(1, 10 ** 6), 'nm': Fraction(1, 10 ** 9), 'angstrom': Fraction(1, 10 ** 10)}
+# independent physical references for the two named laws (CODATA 2018; exact in the 2019 SI)
+CODATA = {'h': 6.62607015e-34, 'c': 299792458.0, 'k': 1.380649e-23}
+SIGMA = 2 * math.pi ** 5 * CODATA['k'] ** 4 / (15 * CODATA['h'] ** 3 * CODATA['c'] ** 2)     # 5.670374419e-8 W m^-2 K^-4
+# roots of x = 5 (1 - exp(-x)) (energy density per wavelength) and x = 4 (1 - exp(-x)) (photon density)
+XPEAK = {'wlam': 4.965114231744276, 'flam': 4.965114231744276, 'photlam': 3.9206903948728864}
+LAW_TOL = 1e-5          # the source's constants (CODATA 2010, C = 299792456) reproduce both laws to < 1e-6
 BANDS = ['U', 'B', 'V', 'R', 'I', 'J', 'H', 'K', 'W1', 'W2', 'W3', 'W4']
 
 
@@ -264,6 +270,13 @@ def generate(rng, tier):
         yield {'op': 'blackbody', 'waves': waves, 'temp': temp, 'wn': rcase(rng, wn), 'vn': rcase(rng, vn),
                'args': [rcase(rng, a) for a in rnd_chain(rng, CANON[wn], vn, 4, close_p=0.3)],
                'samples': [rcase(rng, rng.choice(WNAMES)) for _ in range(rng.randint(1, 3))]}
+    # -- the two physical laws the property names, against independent references (numeric TESTS, not proofs)
+    for temp in ([300.0, 5772.0] if quick else [77.0, 300.0, 1000.0, 2856.0, 5772.0, 12000.0, 40000.0]):
+        for wn in WSHORT:
+            for vn in FNAMES:
+                yield {'op': 'wien', 'temp': temp, 'wn': wn, 'vn': vn}
+            for vn in ('wlam', 'flam'):
+                yield {'op': 'stefan_boltzmann', 'temp': temp, 'wn': wn, 'vn': vn}
     # -- vegaflux
     bands = BANDS if not quick else rng.sample(BANDS, 4)
     for band in bands:
@@ -379,6 +392,8 @@ def classify(c):
         return 'vegastar/' + ('converted' if c['args'] else 'as-built')
     if op == 'seq':
         return f'history/{c["kind"]}/{len(c["calls"])}'
+    if op in ('wien', 'stefan_boltzmann'):
+        return 'TEST/' + op
     return op
 
 
@@ -594,6 +609,25 @@ def run_impl(c):
             f, w = R.vegaflux(c['band'], c['wn'], c['vn'])
             f0, w0 = R.vegaflux(c['band'], 'm', 'photlam')
             return {'flux': float(f), 'wave': float(w), 'si_flux': float(f0), 'si_wave': float(w0)}
+        if op == 'wien':
+            m = float(METRES[c['wn']])
+            lam0 = CODATA['h'] * CODATA['c'] / (CODATA['k'] * c['temp'] * XPEAK[c['vn']]) / m
+            coarse = lam0 * np.linspace(0.25, 4.0, 7501)                       # step 5e-4 of the expected peak
+            vals = np.asarray(R.planck_radiance(coarse, c['temp'], c['wn'], c['vn']), dtype=float)
+            g = float(coarse[int(np.argmax(vals))])
+            u = np.linspace(-1.0, 1.0, 401)                                    # window +-2e-3 around the coarse maximum
+            fine = g * (1.0 + 2e-3 * u)
+            lv = np.log(np.asarray(R.planck_radiance(fine, c['temp'], c['wn'], c['vn']), dtype=float))
+            co = np.polyfit(u, lv - lv.max(), 3)
+            roots = [r.real for r in np.roots(np.polyder(co)) if abs(r.imag) < 1e-12 and abs(r.real) <= 1.5]
+            peak = g * (1.0 + 2e-3 * min(roots, key=abs)) if roots else g
+            return {'peak': float(peak), 'coarse': g}
+        if op == 'stefan_boltzmann':
+            m = float(METRES[c['wn']])
+            hc_kt = CODATA['h'] * CODATA['c'] / (CODATA['k'] * c['temp']) / m
+            grid = np.exp(np.linspace(math.log(hc_kt / 80.0), math.log(hc_kt / 0.004), 40001))
+            vals = np.asarray(R.planck_exitance(grid, c['temp'], c['wn'], c['vn']), dtype=float)
+            return {'total': float(np.sum(0.5 * (vals[1:] + vals[:-1]) * np.diff(grid)))}
         if op == 'vegastar':
             w = np.array(c['waves'], dtype=float)
 
@@ -873,6 +907,27 @@ def oracle(c, impl):
             return (f'vegaflux({c["band"]!r}, {c["wn"]!r}, {c["vn"]!r}) = {impl["flux"]!r} is not the SI photon flux '
                     f'{impl["si_flux"]!r} expressed per {a} in {g}: {exp!r}')
         return None
+    if op == 'wien':
+        if 'err' in impl:
+            return f'planck_radiance on a wavelength grid raised {impl["err"]}'
+        m = float(METRES[c['wn']])
+        lam0 = CODATA['h'] * CODATA['c'] / (CODATA['k'] * c['temp'] * XPEAK[c['vn']]) / m
+        rel = abs(impl['peak'] - lam0) / lam0
+        if not rel <= LAW_TOL:
+            return (f'TEST Wien: planck_radiance in ({c["wn"]}, {c["vn"]}) at {c["temp"]} K peaks at {impl["peak"]!r} {c["wn"]}; Wien\'s displacement '
+                    f'law (hc/(k T x), x = {XPEAK[c["vn"]]}, CODATA 2018 constants) puts the peak at {lam0!r} {c["wn"]} '
+                    f'(relative difference {rel:.3g} > {LAW_TOL})')
+        return None
+    if op == 'stefan_boltzmann':
+        if 'err' in impl:
+            return f'planck_exitance on a wavelength grid raised {impl["err"]}'
+        exp = SIGMA * c['temp'] ** 4 * (1e3 if c['vn'] == 'flam' else 1.0)
+        rel = abs(impl['total'] - exp) / exp
+        if not rel <= LAW_TOL:
+            return (f'TEST Stefan-Boltzmann: planck_exitance in ({c["wn"]}, {c["vn"]}) at {c["temp"]} K integrates over wavelength to {impl["total"]!r}; '
+                    f'sigma T^4 = {exp!r} {"erg s^-1 cm^-2" if c["vn"] == "flam" else "W m^-2"} with sigma = {SIGMA!r} (CODATA 2018) '
+                    f'(relative difference {rel:.3g} > {LAW_TOL})')
+        return None
     if op == 'vegastar':
         if 'err' in impl:
             return f'Blackbody.vegamag(...).to{tuple(c["args"])}/sample raised {impl["err"]}'
@@ -994,6 +1049,10 @@ def extra(tier, rng):
             rep['vegaflux_vs_model'] = {'cases': len(ok), 'disagreements': bad}
         except Exception as e:
             rep['vegaflux_vs_model'] = f'skipped: {type(e).__name__}: {e}'
+    # (1b) the module constants against CODATA 2018 (report only; the two laws below and the cases 'wien' /
+    #      'stefan_boltzmann' are what decides)
+    rep['constants_vs_CODATA2018'] = {nm: {'module': v, 'codata': CODATA[k], 'rel_diff': abs(v - CODATA[k]) / CODATA[k]}
+                                      for nm, v, k in (('H', H, 'h'), ('C', Cc, 'c'), ('K', Kb, 'k'))}
     # (2) TEST (not a proof): Wien's displacement law, peak located to the grid resolution
     wien = []
     for temp in ([3000.0, 5772.0] if tier == 'quick' else [300.0, 1000.0, 3000.0, 5772.0, 12000.0]):
